@@ -5,6 +5,8 @@ from common import Pair, proof_stage, rebuild_tools, build_pqh, build_zoo, Lock,
 
 MODULE = "PQ.Props.C09"
 THEOREMS = ["PQ.C09." + t for t in ("checked_fault_reported", "dropped_fault_swallowed", "sink_sites_propagate", "sink_calls_propagate", "failing_call", "sink_inventory_covers", "sink_extern_allowed")]
+EXTRA_MODULES = ["PQ.Lemmas.SinkFault"]
+EXTRA_THEOREMS = ["PQ.faultRun_reports", "PQ.faultRun_ends_failed", "PQ.faultRun_sink_prefix", "PQ.faultRun_zero"]
 
 
 def counts(calls):
@@ -19,7 +21,7 @@ def run(chk):
         cov["steps"] = rebuild_tools(chk.log)
         cov["steps"]["zoo"] = build_zoo(chk.log)
         build_pqh(chk.log)
-        pr = proof_stage(chk, MODULE, THEOREMS)
+        pr = proof_stage(chk, MODULE, THEOREMS + EXTRA_THEOREMS, EXTRA_MODULES, audit_imports=EXTRA_MODULES)
     pair = Pair(chk.log)
     zs = filelevel.load_zoos(pair, workloads.ZOOS)
     cases = iocommon.corpus(chk, pair, zs, thorough, per_zoo=(3 if thorough else 1))
@@ -68,9 +70,19 @@ def run(chk):
             for mode in "zhfZF":       # lower case: the sink stays broken; upper case: only write k fails (transient)
                 ops.append("zoo-write %s %d %d %s %d:%s" % (c.zoo.name, c.max, c.codec, c.go_ops, k, mode)); meta.append((c, k, cnt, mode))
     res = common.chunked_parallel(pair.impl, ops, workers=8, chunk=200)
+    # the sink-fault model (PQ/Model/SinkFault.lean): for every k the line of the run cut at write k
+    tabtxt = lambda d: ",".join("%s=%s" % kv for kv in d.items()) or "-"
+    fl = common.chunked_parallel(pair.model, ["write-faults %s %d %d %s %s" % (c.zoo.cols_text, c.max, c.codec, c.m_ops, tabtxt(c.tab)) for c in cases], workers=8, chunk=4)
+    fault_lines = {id(c): l.split(" ") for c, l in zip(cases, fl)}
+    model_checked = 0
     nontrivial = set()
     for (c, k, cnt, mode), r in zip(meta, res):
         got = r.split(" ")[1] if " " in r else r
+        lines = fault_lines.get(id(c), [])
+        if c.impl_calls == c.model_calls and k <= len(lines):
+            model_checked += 1
+            if got != lines[k - 1] and len(tie_breaks) < 40:
+                tie_breaks.append({"case": c.key()[:400] + " failAt=%d:%s" % (k, mode), "what": "sink-fault model (faultRun)", "impl": got[-200:], "model": lines[k - 1][-200:]})
         # predicted: API calls before the one containing write k complete with their write counts; that call reports err
         acc, idx = 0, 0
         for i, n in enumerate(cnt):
@@ -91,7 +103,8 @@ def run(chk):
         "evaluations": len(ops), "distinct_nontrivial": len(nontrivial), "exhaustive": True, "workloads": len(cases),
         "rule": "for every workload (8 structs x 3 codecs, histories with several row groups, empty writes, pending records) the sink fails at its k-th Write call for EVERY k in 1..total (exhaustive), in each of the three ways an io.Writer may fail: (0, err), (len/2, err) after taking half of the bytes, (len, err) after taking all of them, with the sink staying broken afterwards or failing only that once (transient); the API call predicted by the model's per-call write list must return a non-nil error, earlier calls complete with exactly the model's number of writes, nothing panics — including the Close() a caller still makes after the failed call; non-trivial = distinct (workload, k) reported correctly",
         "samples": [ops[0][:200], ops[len(ops) // 2][:200]],
-        "tie": "exact: number of sink writes per API call = model's runWriter; outcome per failing index = model's failingCall",
+        "tie": "exact: number of sink writes per API call = model's runWriter; outcome per failing index = model's failingCall; exact: the line the generated writer's run prints under a sink failing at write k (completed calls with the lengths of their writes, then err) = the sink-fault model's (faultRun, PQ/Model/SinkFault.lean)",
+        "fault_model_comparisons": model_checked,
         "tie_disagreements": len(tie_breaks), "property_failures_on_impl": len(prop_fail),
         "traces_validated_against_impl": len(ops),
     })
